@@ -1,4 +1,5 @@
 import pv
+READY = True
 
 SPEC = {
     "targets": ["Properties/C06.vo", "Run/C06.vo"],
